@@ -125,27 +125,57 @@ Definition result_reinterpreted (view : list node) (reqs : list bytes) : bool :=
   | _ => false
   end.
 
+(* second clause of kind 1805: everything the returned include set SELECTS is walked.  The
+   elements of the FollowLinks result are include patterns; an entry of the tree is selected
+   when an element, read component-wise with filepath.Match, matches it or one of its
+   ancestors (the naive reference of C10 for an include-only list); the walk must report
+   every selected entry and every directory above one. *)
+Fixpoint nonempty_prefixes (q : list bytes) : list (list bytes) :=
+  match q with
+  | [] => []
+  | c :: r => [c] :: map (cons c) (nonempty_prefixes r)
+  end.
+Definition selected_paths (view : list node) (res : list bytes) : list (list bytes) :=
+  flat_map nonempty_prefixes (filter (covered go_match res) (all_cpaths view)).
+Definition k_unwalked : bytes := Eval compute in bs "selected-not-walked".
+
 Definition run_1805 (input impl : sx) : sx :=
   match dec_case input with
   | None => v_malformed
   | Some (view, reqs) =>
     match impl with
-    | SL [SN 0; l] =>
+    | SL [SN 0; l; fl] =>
       match sx_list sx_B l with
       | None => v_malformed
       | Some walked =>
         let w := map comps walked in
         let missing := filter (fun q => negb (mem_c q w)) (needs view reqs) in
         let fuel := fuel_bound view reqs in
-        let s :=
+        let s1 :=
           if negb (no_revisit go_match view fuel reqs) then [sig k_revisit]
           else if negb (lexical_safe view reqs) then [sig k_lexical]
           else if negb (wild_last_only reqs) then [sig k_wildmid]
           else if negb (links_literal view) then [sig k_linkglob]
           else if result_reinterpreted view reqs then [sig k_reinterp]
           else [] in
+        (* the include set the implementation merged: what the real FollowLinks answered *)
+        let '(unwalked, s2) :=
+          match dec_impl fl with
+          | Some (false, res) =>
+            (filter (fun q => negb (mem_c q w)) (selected_paths view res),
+             if existsb reinterpreted res then [sig k_reinterp] else [])
+          | Some (true, _) => (* nil: no filter at all, every entry is walked *)
+            (filter (fun q => negb (mem_c q w)) (all_cpaths view), [])
+          | None => ([], [])
+          end in
+        let fail1 := negb (is_nil missing) in
+        let fail2 := negb (is_nil unwalked) in
+        (* a signature is reported only when EVERY failing clause is explained by one *)
+        let s := if fail2 && is_nil s2 then [] else if fail1 then s1 else s2 in
         (* no model of the filter walk here (that is C10): the "model" column repeats impl *)
-        verdict impl impl (is_nil missing) (SL (s ++ [SL (SB k_missing :: map (fun q => SB (key q)) missing)]))
+        verdict impl impl (negb fail1 && negb fail2)
+                (SL (s ++ [SL (SB k_missing :: map (fun q => SB (key q)) missing);
+                           SL (SB k_unwalked :: map (fun q => SB (key q)) unwalked)]))
       end
     | _ => (* NewFilterFS / the walk failed: a link target read as a (malformed) pattern makes the
               include list invalid *)
